@@ -44,26 +44,6 @@ def comment_token(written):
     return written[:-1] if written.endswith('\n') else written
 
 
-def write_defect(ctx, cnt, text, written, b, b2, exc2):
-    """the three recorded defects of the writer, each recognised by its exact effect"""
-    if exc2 is not None or b2 == b:
-        return None
-    rep = {'kind': 'text', 'text': text, 'written': written}
-    if ac._REAL_ACTION.match(b['name']) and (b2 is None or b2['name'] != b['name']):
-        ctx.report_failure(ac.KEY_ACTION_WRITE, ac.PENDING_FINDINGS[2]['what'], rep)
-        cnt.hit('block:pending(action-write)')
-        return 'pending'
-    if ac.is_name_prefix_defect(b, b2):
-        ctx.report_failure(ac.KEY_NAME_PREFIX, ac.PENDING_FINDINGS[5]['what'], rep)
-        cnt.hit('block:pending(name-prefix-write)')
-        return 'pending'
-    if b2 is not None and ac.is_empty_value_defect(b, b2):
-        ctx.report_failure(ac.KEY_EMPTY_VALUE, ac.PENDING_FINDINGS[4]['what'], rep)
-        cnt.hit('block:pending(empty-value-write)')
-        return 'pending'
-    return None
-
-
 def check_model(ctx, impl, cnt, m, layouts):
     """the real parser must recover exactly the model from every layout, all layouts must
     agree, and writing + re-parsing must give the same block"""
@@ -74,11 +54,6 @@ def check_model(ctx, impl, cnt, m, layouts):
         b, ind, recs, exc = ac.parse_real(impl, text)
         cnt.hit('block:layout')
         if exc is not None:
-            if ac.is_len_none_defect(exc, text):
-                ctx.report_failure(ac.KEY_LEN_NONE, ac.PENDING_FINDINGS[0]['what'],
-                                   {'kind': 'text', 'text': text, 'exception': repr(exc)})
-                cnt.hit('block:pending(len-None)')
-                return 'pending'
             ctx.report_failure('raise:' + json.dumps(text), 'parse_comment_block raised %r on a well-formed block:\n%s'
                                % (exc, text), {'kind': 'model', 'model': m, 'layout': lay, 'text': text})
             return 'raised'
@@ -102,9 +77,6 @@ def check_model(ctx, impl, cnt, m, layouts):
         except Exception as e:  # noqa
             written, b2, exc2 = None, None, e
         cnt.hit('block:write-parse')
-        pend = write_defect(ctx, cnt, text, written, b, b2, exc2)
-        if pend:
-            return pend
         if exc2 is not None or b2 != b:
             ctx.report_failure('write:' + json.dumps(text),
                                'parse(write(parse(s))) differs from parse(s): written=%r reparsed=%r (exception %r), '
@@ -139,9 +111,6 @@ def check_text_fixpoint(ctx, impl, cnt, text, origin):
     """for arbitrary repo-provided comment text: no exception, and the writer round trip"""
     b, ind, recs, exc = ac.parse_real(impl, text)
     if exc is not None:
-        if ac.is_len_none_defect(exc, text):
-            ctx.report_failure(ac.KEY_LEN_NONE, ac.PENDING_FINDINGS[0]['what'], {'kind': 'text', 'text': text})
-            return 'pending'
         ctx.report_failure('raise:' + json.dumps(text), 'parse_comment_block raised %r on %s' % (exc, origin),
                            {'kind': 'text', 'text': text})
         return 'raised'
@@ -156,9 +125,6 @@ def check_text_fixpoint(ctx, impl, cnt, text, origin):
     impl.take()
     written = comment_token(impl.writer.write(blk))
     b2, _i, _r, exc2 = ac.parse_real(impl, written)
-    pend = write_defect(ctx, cnt, text, written, b, b2, exc2)
-    if pend:
-        return pend
     if exc2 is not None or b2 != b:
         ctx.report_failure('write:' + json.dumps(text),
                            'parse(write(parse(s))) differs from parse(s) for %s: written=%r reparsed=%r parsed=%r'
@@ -195,11 +161,6 @@ def run(ctx):
             r = impl.parse_annotations(text + rng.choice(['', ': text', ':', ' x']), rng.randint(0, 4), None, True)
             rt += 1
             want = [[n, o] for n, o in a]
-            if r.get('ok') and r['end'] == len(text) and not r['diags'] and ac.is_empty_value_defect(want, r['anns']):
-                ctx.report_failure(ac.KEY_EMPTY_VALUE, ac.PENDING_FINDINGS[4]['what'],
-                                   {'kind': 'anns', 'anns': a, 'text': text, 'result': r})
-                cnt.hit('L1:pending(empty-value-write)')
-                continue
             if not r.get('ok') or r['anns'] != want or r['end'] != len(text) or r['diags']:
                 ctx.report_failure('ann-roundtrip:' + json.dumps(a),
                                    'tokenizer does not read back what the writer emits: anns=%r text=%r result=%r'
